@@ -4,14 +4,14 @@ CONSTANTS
   FAMS = {"alias"}
   TYPES = {"hash", "hset", "ivec", "list", "str"}
   DEPTH = 5
-  KINDS0 = {"G", "P", "L", "M", "B", "C", "EL", "EP", "EV", "EI", "EH", "ES", "K", "WL", "WM"}
-  KINDS1 = {"G", "L", "M", "B", "C", "EL", "EP", "EV", "EI", "EH", "ES", "K", "WL", "WM"}
-  KINDSR = {"G", "L", "M", "B", "C", "EL", "EP", "EV", "EI", "EH", "ES", "K", "WL", "WM"}
+  KINDS0 = {"G", "P", "L", "M", "B", "C", "EL", "EP", "EV", "EI", "EH", "ES", "EM", "S", "PR", "K", "WL", "WM"}
+  KINDS1 = {"G", "L", "M", "B", "C", "EL", "EP", "EV", "EI", "EH", "ES", "EM", "S", "PR", "K", "WL", "WM"}
+  KINDSR = {"G", "L", "M", "B", "C", "EL", "EP", "EV", "EI", "EH", "ES", "EM", "S", "PR", "K", "WL", "WM"}
   KEEP1 = 30
   KEEP2 = 3
   KEEPR = 1
   SEED = 1
-  VIAS = {"d", "f", "g", "k"}
+  VIAS = {"d", "f", "g", "a", "m", "k"}
   ACTS = {"base", "share", "upd", "upd2", "reobs"}
   MAXBASE = 2
   MAXLEN = 6
